@@ -30,6 +30,10 @@ write("C15",[shard_unit("zz_verif_C15.go",[{"name":"VerifC15Put","reach":["store
  ["write-cache and blob storage are maps address -> present with a symbolic crash point before and after every call and injectable failures; the metabase is the real one on the bbolt model; component calls are atomic"],
  ["garbage collection and write-cache flush under crash (separate entries when present)","histories of more than one operation per run, real restart and recovery code","crash inside a component call (partial writes) - see C12"],
  ["common.Storage, writecache.Cache -> models with crash points"])
+write("C44",[shard_unit("zz_verif_C44.go",[{"name":"VerifC44Collect","reach":["end"]}],tiers={"quick":{"unwind":400,"params":{"PASSES":8}},"thorough":{"unwind":400,"params":{"PASSES":12}}})],
+ ["blob storage is a presence map; expired objects reported by the shard are garbage-marked unless locked, as the engine does; the metabase is the real one on the bbolt model"],
+ ["liveness beyond PASSES passes, shard contents other than the explored one, GC timers and workers (the passes are invoked sequentially)","write-cache"],
+ ["common.Storage -> presence map"])
 # C03: two units
 h=json.load(open('/verif/harness/C03/harness.json'))
 h['units']=[u for u in h['units'] if u['package']=='./pkg/core/object']+[meta_unit(["zz_verif_C03meta.go"],[{"name":"VerifC03Search","reach":["end"]}])]
